@@ -121,7 +121,14 @@ func chainStress(k *mon.Case, readers, writerOps int) {
 	// base chain with transactions
 	var txIDs [][]byte
 	var hdrIDs [][]byte
-	for i := 0; i < 30; i++ {
+	// one repetition in three has a long base chain, so that bulk lookups carry hundreds of items
+	// (more items than any fan-out limit a lookup may use) and mostly miss the block cache
+	baseLen := 30
+	if r.Intn(3) == 0 {
+		baseLen = 120 + r.Intn(200)
+		k.Count("chain_long_base", 1)
+	}
+	for i := 0; i < baseLen; i++ {
 		b, err := plainValid(n, r)
 		if err != nil || n.Apply(b) != nil {
 			k.Inconclusive("build")
@@ -190,6 +197,9 @@ func chainStress(k *mon.Case, readers, writerOps int) {
 				}
 			case 3:
 				m := 1 + rr.Intn(len(hdrIDs))
+				if rr.Intn(3) == 0 {
+					m = len(hdrIDs)
+				}
 				ids := make([][]byte, 0, m)
 				for _, i := range rr.Perm(len(hdrIDs))[:m] {
 					ids = append(ids, hdrIDs[i])
@@ -202,6 +212,9 @@ func chainStress(k *mon.Case, readers, writerOps int) {
 				checkSet(k, "GetBlockHeaders", err, len(hs), m, func(i int) string { return string(hs[i].ID) }, idSet(ids[:m]))
 			case 4:
 				m := 1 + rr.Intn(int(baseHeight))
+				if rr.Intn(3) == 0 {
+					m = int(baseHeight)
+				}
 				hts := make([]uint32, 0, m)
 				want := map[string]bool{}
 				for _, i := range rr.Perm(int(baseHeight))[:m] {
@@ -218,6 +231,9 @@ func chainStress(k *mon.Case, readers, writerOps int) {
 					continue
 				}
 				m := 1 + rr.Intn(len(txIDs))
+				if rr.Intn(3) == 0 {
+					m = len(txIDs)
+				}
 				ids := make([][]byte, 0, m)
 				for _, i := range rr.Perm(len(txIDs))[:m] {
 					ids = append(ids, txIDs[i])
